@@ -972,6 +972,113 @@ func pagesTest(r *rand.Rand, holders, churners, rounds int) string {
 	}
 }
 
+// ---------------------------------------------------------------- page buffer operations (data path)
+
+func patternBytes(n, seed int) []byte {
+	b := make([]byte, n)
+	for i := range b {
+		b[i] = byte(seed + i*131 + i/251)
+	}
+	return b
+}
+
+func digestOf(b []byte) string { return fmt.Sprintf("%d:%08x", len(b), crc32.ChecksumIEEE(b)) }
+
+// pbufCase: a random sequence of operations on a real pageBuffer; sizes and offsets gather around multiples of the
+// 64 KiB page size
+func pbufCase(r *rand.Rand, steps int) (string, string) {
+	const P = 65536
+	near := func(limit int) int { // an offset in [0, limit] with a preference for page boundaries
+		if limit <= 0 {
+			return 0
+		}
+		switch r.Intn(4) {
+		case 0:
+			return r.Intn(limit + 1)
+		case 1:
+			return limit
+		default:
+			k := r.Intn(limit/P + 1)
+			x := k*P + []int{-2, -1, 0, 0, 1, 2, 100}[r.Intn(7)]
+			if x < 0 {
+				x = 0
+			}
+			if x > limit {
+				x = limit
+			}
+			return x
+		}
+	}
+	pb := protocol.VerifNewPageBuffer()
+	defer pb.Unref()
+	var ops, outs []string
+	res := guard2(func() {
+		for st := 0; st < steps; st++ {
+			size := int(pb.Size())
+			switch k := r.Intn(10); {
+			case k < 3 || size == 0: // Write
+				l := []int{0, 1, 7, 100, 4096, P - 1, P, P + 1, 2*P + 3, 3 * P}[r.Intn(10)]
+				sd := r.Intn(256)
+				pb.Write(patternBytes(l, sd))
+				ops = append(ops, fmt.Sprintf("w%d.%d", l, sd))
+			case k == 3: // WriteAt inside the written part
+				off := near(size)
+				l := r.Intn(size - off + 1)
+				if l > 3*P {
+					l = 3 * P
+				}
+				if r.Intn(2) == 0 && l > 8 {
+					l = 1 + r.Intn(8)
+				}
+				sd := r.Intn(256)
+				pb.WriteAt(patternBytes(l, sd), int64(off))
+				ops = append(ops, fmt.Sprintf("a%d.%d.%d", off, l, sd))
+			case k < 6: // ReadAt
+				off := near(size)
+				n := near(size - off)
+				ops = append(ops, fmt.Sprintf("r%d.%d", off, n))
+				outs = append(outs, digestOf(pb.ReadAt(n, int64(off))))
+			case k < 8: // scan
+				b := near(size)
+				e := b + near(size-b)
+				ops = append(ops, fmt.Sprintf("s%d.%d", b, e))
+				outs = append(outs, digestOf(pb.Scan(int64(b), int64(e))))
+			case k == 8: // Truncate
+				n := near(size)
+				pb.Truncate(n)
+				ops = append(ops, fmt.Sprintf("t%d", n))
+			default: // ref [b,e) and read inside it
+				b := near(size)
+				e := b + near(size-b)
+				off := near(e - b)
+				n := near(e-b-off) + r.Intn(3)
+				ref := pb.Ref(int64(b), int64(e))
+				ops = append(ops, fmt.Sprintf("f%d.%d.%d.%d", b, e, off, n))
+				outs = append(outs, digestOf(protocol.VerifRefReadAt(ref, n, int64(off))))
+				ref.Close()
+			}
+		}
+	})
+	o := "-"
+	if len(outs) > 0 {
+		o = strings.Join(outs, ",")
+	}
+	if res != "" {
+		o = res
+	}
+	return strings.Join(ops, ","), o
+}
+
+func guard2(f func()) (res string) {
+	defer func() {
+		if p := recover(); p != nil {
+			res = strings.ReplaceAll(fmt.Sprintf("panic:%v", p), " ", "_")
+		}
+	}()
+	f()
+	return ""
+}
+
 // pageTrace: a sequential scenario (decode and hold key/value Bytes, release some, encode, decode again so that
 // pooled pages are reused, release the rest) recorded by the page hooks of protocol/buffer.go.
 type heldBytes struct {
@@ -1218,6 +1325,16 @@ func main() {
 	}
 	if mode == "all" {
 		emit("pages 3 3 6", pagesTest(r, 3, 3, 6))
+	}
+	if mode == "all" || mode == "pbuf" {
+		n := 25
+		if thorough {
+			n = 150
+		}
+		for i := 0; i < n; i++ {
+			ops, res := pbufCase(r, 4+r.Intn(14))
+			emit("pbuf "+ops, res)
+		}
 	}
 
 	// --- crc validation
